@@ -224,7 +224,13 @@ def check_derived(rep, prop, db, f, inst):
     for p in ps:
         cs = calls_on_this(p, ALL_OPNAMES)
         why = None
-        if len(cs) != 1 or q.short(cs[0].a) != "operator" + base or len(cs[0].b) != 1:
+        opposite = {"+": "-", "-": "+"}.get(base)
+        if form != "compound" and len(cs) == 1 and q.short(cs[0].a) == "operator" + str(opposite) and len(cs[0].b) == 1:
+            # x - 1 spelled x + (-1) (and x + 1 spelled x - (-1)): the same value for every arithmetic and pointer type (modular for
+            # unsigned / addresses, exact for signed and floating point)
+            if not _is_const(p, cs[0].b[0], -1):
+                why = "%s%s applies operator%s with %s instead of -1" % (oo, "x" if form == "prefix" else "", opposite, fmt(cs[0].b[0])[:60])
+        elif len(cs) != 1 or q.short(cs[0].a) != "operator" + base or len(cs[0].b) != 1:
             why = "expected exactly one application of binary operator%s to the object; found %s" % (base, [q.short(c.a) for c in cs])
         else:
             a = cs[0].b[0]
@@ -268,12 +274,16 @@ def check_derived(rep, prop, db, f, inst):
                                   "compound": "x %s y is x = x %s y" % (oo, base)}[form], inst)
 
 
-def _is_one(p, t):
-    if t == C(1):
+def _is_const(p, t, k):
+    if t == C(k):
         return True
     if isinstance(t, tuple) and t and t[0] in ("tmp", "var"):
-        return p.state.mem.get(t) == C(1)
+        return p.state.mem.get(t) == C(k)
     return False
+
+
+def _is_one(p, t):
+    return _is_const(p, t, 1)
 
 
 def _assigned_to_this(p, call):
@@ -347,7 +357,7 @@ def exact_offset(db, f):
     if "var" not in found or "tgt" not in found:
         raise IvI("index variable / containment check not found")
     env2 = {k: v for k, v in (found.get("env") or env).items() if k != found["var"]}
-    ev = Evaluator({found["var"]}, env2, ptr_zero=True)
+    ev = Evaluator({found["var"]}, env2, ptr_zero=True, db=db)
     pieces = ev.ev(found["tgt"], [trange(found["t"])])
     return pieces, found["t"]
 
